@@ -38,8 +38,8 @@ class AS:
 class SignModel:
     """the extracted sign table, used as a transition function on abstract states"""
 
-    def __init__(self, prog):
-        self.tab = p_vsign.SignTable(prog, log_on=False)
+    def __init__(self, prog, log_on=False):
+        self.tab = p_vsign.SignTable(prog, log_on=log_on)
         self.rows = [r for r in self.tab.rows if "panic" not in r["effect"]]
         self.panic_rows = [r for r in self.tab.rows if "panic" in r["effect"]]
         self._cache = {}
@@ -353,7 +353,29 @@ def run_c08(chk, prog):
     n += chk.include("C08.data", lambda c, p: [p_vsign.reassembly_rules(c, p_vsign.SignTable(p, log_on=lo), "C13.O2") for lo in (False, True)], prog)
     n += chk.include("C08.data", p_page.run_c07, prog, keep=lambda r: r.startswith("C07.O3") or r.startswith("C07.O1"))
     chk.floor("C08.data", "data-plane obligations (chunking C09.O2-O4, reassembly C13.O2, page length C07.O1/O3)", n, 40)
-    sm = SignModel(prog)
+    # the product below composes the controller with the sign's table directly: that the bus hands every message to the sign and
+    # returns its reply unchanged is C14.O4, and that no handler panics under any traffic (the table keeps the success edge of
+    # every bounds / overflow assertion) is C12
+    import p_c12
+    nb = chk.include("C08.bus", lambda c, p: p_vsign.bus_loop(c, p), prog)
+    nt = chk.include("C08.total", p_c12.run_c12, prog)
+    chk.floor("C08.bus", "bus delivery obligations (C14.O4)", nb, 6)
+    chk.floor("C08.total", "panic-site obligations of the sign (C12)", nt, 8)
+    # log macros evaluate their arguments only when the record is enabled: the product is explored at both extremes of the level
+    for lo in (False, True):
+        p_ctrl.LOG_ON = lo
+        try:
+            sm = _product(chk, prog, lo)
+        finally:
+            p_ctrl.LOG_ON = False
+    chk.note_analysed("functions", ["flipdot::sign::Sign::%s" % n for n in p_ctrl.ENTRIES] + [sm.tab.fn["name"]])
+    chk.assumptions += ["the pages sent have the requested sign type's size (property precondition); the controller's and the sign's address coincide",
+                        "C09.O4 + C19.O1: the configuration is one item of one 16-byte chunk; C19.O3: the sign derives exactly dimensions() from it",
+                        "lemma L4 (DESIGN.md section 6) for the data plane"]
+
+
+def _product(chk, prog, lo):
+    sm = SignModel(prog, lo)
     prod = Product(prog, sm)
     where_s = loc(sm.tab.fn["span"])
     total_reach = 0
@@ -448,10 +470,7 @@ def run_c08(chk, prog):
     chk.extra["traces_validated_against_impl"] = 0
     chk.extra["model_origin"] = "both automata are extracted from the implementation's MIR on every run; no hand-written model"
     chk.floor("C08", "controller operations composed with the sign", len(prod.ctl), 6)
-    chk.note_analysed("functions", ["flipdot::sign::Sign::%s" % n for n in p_ctrl.ENTRIES] + [sm.tab.fn["name"]])
-    chk.assumptions += ["the pages sent have the requested sign type's size (property precondition); the controller's and the sign's address coincide",
-                        "C09.O4 + C19.O1: the configuration is one item of one 16-byte chunk; C19.O3: the sign derives exactly dimensions() from it",
-                        "lemma L4 (DESIGN.md section 6) for the data plane"]
+    return sm
 
 
 def report(chk, rule, opname, a0, terms, probs, prod, want, desc):
